@@ -264,6 +264,8 @@ def main(mod_id, tier, seed):
             canary_failed = [n for n, ok in canary_results if not ok]
 
     scns = all_scenarios(mod, tier)
+    if os.environ.get('T4MC_ONLY'):     # development aid: a comma-separated subset of the scenarios
+        scns = [s for s in scns if s.name.split('~')[0] in os.environ['T4MC_ONLY'].split(',')]
     enums = {s.name: explore.LevelEnumerator(s.build, s.bound(tier)) for s in scns}
     order = list(scns)
     if seed:
